@@ -95,6 +95,12 @@ struct ArenaAlloc {
     template <typename U> bool operator==(const ArenaAlloc<U>& o) const { return id == o.id; }
     template <typename U> bool operator!=(const ArenaAlloc<U>& o) const { return id != o.id; }
 };
+// direction of a comparator instance (stateless comparators: ascending) and construction from a direction
+template <class Cmp> static auto cmp_dir(const Cmp& c, int) -> decltype(c.gt) { return c.gt; }
+template <class Cmp> static bool cmp_dir(const Cmp&, long) { return false; }
+template <class Cmp> static Cmp make_cmp(bool gt) {
+    if constexpr (std::is_constructible<Cmp, bool>::value) return Cmp(gt); else return Cmp();
+}
 // an allocator of arena `id` where the container's allocator has arenas (tlx side), a default one otherwise
 template <class X> static typename X::allocator_type make_alloc(int id) {
     if constexpr (std::is_constructible<typename X::allocator_type, int>::value) return typename X::allocator_type(id);
@@ -103,7 +109,9 @@ template <class X> static typename X::allocator_type make_alloc(int id) {
 
 template <int L, int I, bool BIN>
 struct Tr {
-    static const bool self_verify = false;
+    // the tree's own self-verification (verify() inside insert / erase / copy / bulk_load, and the linear
+    // cross-check inside the binary search) is switched on for a third of the capacity pairs
+    static const bool self_verify = ((L + I) % 3 == 0);
     static const bool debug = false;
     static const int leaf_slots = L;
     static const int inner_slots = I;
@@ -142,6 +150,23 @@ template <bool GT, int L, int I, bool BIN>
 struct msetK {
     typedef msetB<GT> B;
     typedef tlx::btree_multiset<typename B::Key, typename B::Cmp, Tr<L, I, BIN>, ArenaAlloc<typename B::Key>> C;
+};
+// "dms": btree_multiset<int> with the DEFAULT Compare (std::less) and the DEFAULT traits
+// (btree_default_traits: 64 leaf slots, 21 inner slots for int on LP64, binsearch_threshold 256);
+// the configuration name carries those numbers for the model, run_case checks them against the real type
+struct dmsB {
+    typedef int Key;
+    typedef std::less<int> Cmp;
+    typedef std::multiset<Key> S;
+    static const bool dup = true, ismap = false;
+    static Key mk(int k, int) { return k; }
+    template <class VT> static int kof(const VT& v) { return kval(v); }
+    template <class VT> static int dof(const VT&) { return 0; }
+};
+template <bool GT, int L, int I, bool BIN>
+struct dmsK {
+    typedef dmsB B;
+    typedef tlx::btree_multiset<int, std::less<int>, tlx::btree_default_traits<int, int>, ArenaAlloc<int>> C;
 };
 template <bool GT>
 struct mapB {     // map<int, Tracked>
@@ -196,6 +221,13 @@ struct BtAccess {
             for (unsigned s = 0; s <= in->slotuse; ++s) dump_node<BT>(in->childid[s], out);
             out += ']';
         }
+    }
+    // do the capacities / search strategy of the real type equal what the configuration name tells the model?
+    template <class C> static bool params_ok(int L, int I, bool BIN) {
+        typedef typename C::btree_impl BT;
+        bool leaf_bin = sizeof(typename BT::LeafNode) > BT::traits::binsearch_threshold;
+        bool inner_bin = sizeof(typename BT::InnerNode) > BT::traits::binsearch_threshold;
+        return BT::leaf_slotmax == L && BT::inner_slotmax == I && leaf_bin == BIN && inner_bin == BIN;
     }
     // BTree::swap on the underlying trees (the facades' own swap() goes through std::swap of the trees)
     template <class C> static void tree_swap(C& a, C& b) { a.tree_.swap(b.tree_); }
@@ -357,6 +389,32 @@ template <class KD, class X> struct Ops {
         out = cand[static_cast<size_t>(j) % cand.size()];
         return true;
     }
+    // reverse -> forward: tlx has converting constructors, std has base()
+    template <class F, class Rv> static F to_forward(const Rv& r) {
+        if constexpr (is_tlx<X>::value) return F(r); else return F(r.base());
+    }
+    // steps an iterator of kind I over [first, last) with postfix ++, back with prefix -- and postfix --;
+    // returns the name of the first operator that misbehaves (nullptr: all fine)
+    template <class I>
+    static const char* walk_all(I first, I last, const std::vector<std::pair<int, int>>& e) {
+        size_t n = 0;
+        I y = first;
+        while (y != last) {
+            I old = y++;
+            if (old == y || !(old != y)) return "postfix++";
+            if (n >= e.size() || KD::kof(*old) != e[n].first || KD::dof(*old) != e[n].second) return "postfix++-sequence";
+            if (&*old != old.operator->()) return "arrow";
+            ++n;
+        }
+        if (n != e.size()) return "postfix++-length";
+        y = last;
+        while (y != first) { if (n == 0) return "prefix---overrun"; --y; --n; if (KD::kof(*y) != e[n].first || KD::dof(*y) != e[n].second) return "prefix---sequence"; }
+        if (n != 0) return "prefix---length";
+        y = last; n = e.size();
+        while (y != first) { if (n == 0) return "postfix---overrun"; I old = y--; if (old == y) return "postfix--"; --n; if (KD::kof(*y) != e[n].first || KD::dof(*y) != e[n].second) return "postfix---sequence"; }
+        if (n != 0) return "postfix---length";
+        return nullptr;
+    }
     static std::string iterate(X& x) {
         std::vector<std::pair<int, int>> fwd, rev;
         for (It y = x.begin(); y != x.end(); ++y) fwd.push_back(std::make_pair(KD::kof(*y), KD::dof(*y)));
@@ -374,6 +432,60 @@ template <class KD, class X> struct Ops {
             std::vector<std::pair<int, int>> crev;
             for (typename X::const_reverse_iterator y = cx.rbegin(); y != cx.rend(); ++y) crev.push_back(std::make_pair(KD::kof(*y), KD::dof(*y)));
             if (crev != rev) return "T!constreverse";
+        }
+        {   // every operator of the four iterator kinds: postfix ++, prefix/postfix --, ->, key(), copies, == / !=
+            const char* e = walk_all<It>(x.begin(), x.end(), fwd);                       if (e) return std::string("T!iterator-") + e;
+            e = walk_all<CIt>(cx.begin(), cx.end(), fwd);                                if (e) return std::string("T!const_iterator-") + e;
+            e = walk_all<typename X::reverse_iterator>(x.rbegin(), x.rend(), rev);       if (e) return std::string("T!reverse_iterator-") + e;
+            e = walk_all<typename X::const_reverse_iterator>(cx.rbegin(), cx.rend(), rev); if (e) return std::string("T!const_reverse_iterator-") + e;
+            // conversions between the iterator kinds at EVERY position (leaf boundaries included), with the
+            // semantics of std::reverse_iterator: reverse_iterator(it) stands on the element before it and
+            // converts back to it (base())
+            typedef typename X::reverse_iterator R;
+            typedef typename X::const_reverse_iterator CR;
+            std::vector<It> pos; for (It y = x.begin();; ++y) { pos.push_back(y); if (y == x.end() || pos.size() > fwd.size() + 1) break; }
+            std::vector<R> rpos; for (R y = x.rbegin();; ++y) { rpos.push_back(y); if (y == x.rend() || rpos.size() > fwd.size() + 1) break; }
+            const size_t n = fwd.size();
+            if (pos.size() != n + 1 || rpos.size() != n + 1) return "T!positions";
+            for (size_t p = 0; p <= n; ++p) {
+                R r(pos[p]);                                   // forward -> reverse
+                if (r != rpos[n - p]) return "T!conv-iterator-to-reverse_iterator@" + std::to_string(p);
+                if (p > 0 && (KD::kof(*r) != fwd[p - 1].first || KD::dof(*r) != fwd[p - 1].second)) return "T!conv-deref-reverse@" + std::to_string(p);
+                It back = to_forward<It>(rpos[n - p]);         // reverse -> forward
+                if (back != pos[p]) return "T!conv-reverse_iterator-to-iterator@" + std::to_string(p);
+                if (p < n && (KD::kof(*back) != fwd[p].first || KD::dof(*back) != fwd[p].second)) return "T!conv-deref-forward@" + std::to_string(p);
+                CIt cf(pos[p]);                                // mutable -> const
+                CR cr(cf);                                     // const forward -> const reverse
+                CR cr2(rpos[n - p]);                           // reverse -> const reverse
+                if (cr != cr2) return "T!conv-const_iterator-to-const_reverse_iterator@" + std::to_string(p);
+                if (p > 0 && KD::kof(*cr) != fwd[p - 1].first) return "T!conv-deref-const_reverse@" + std::to_string(p);
+#ifdef TLX_HAS_CRI_TO_CI
+                // const reverse -> const forward.  tlx declares const_iterator(const const_reverse_iterator&), but
+                // const_reverse_iterator does not befriend const_iterator, so the constructor is ill-formed when
+                // used (docs/audit/C01.md, F3); compiled in only with -DTLX_HAS_CRI_TO_CI (after a fix)
+                CIt cback = to_forward<CIt>(cr2);
+                if (cback != cf) return "T!conv-const_reverse_iterator-to-const_iterator@" + std::to_string(p);
+#else
+                if constexpr (!is_tlx<X>::value) {
+                    CIt cback = to_forward<CIt>(cr2);
+                    if (cback != cf) return "T!conv-const_reverse_iterator-to-const_iterator@" + std::to_string(p);
+                }
+#endif
+                if constexpr (is_tlx<X>::value) {              // the mixed-constness constructors tlx has in addition
+                    CR cr3(pos[p]);                            // iterator -> const_reverse_iterator
+                    if (cr3 != cr2) return "T!conv-iterator-to-const_reverse_iterator@" + std::to_string(p);
+                    CIt c3(rpos[n - p]);                       // reverse_iterator -> const_iterator
+                    if (c3 != cf) return "T!conv-reverse_iterator-to-const_iterator@" + std::to_string(p);
+                }
+            }
+            if (CIt(x.begin()) != cx.begin() || CIt(x.end()) != cx.end()) return "T!iterator-to-const_iterator";
+            if (CR(x.rbegin()) != cx.rbegin() || CR(x.rend()) != cx.rend()) return "T!reverse-to-const_reverse";
+        }
+        if constexpr (is_tlx<X>::value) {
+            const typename X::tree_stats& st = cx.get_stats();
+            if (st.nodes() != st.leaves + st.inner_nodes || st.size != x.size()) return "T!stats";
+            if (st.size > 0) { double f = st.avgfill_leaves(); if (!(f > 0.0 && f <= 1.0)) return "T!avgfill"; }
+            if (st.leaf_slots != X::leaf_slotmax || st.inner_slots != X::inner_slotmax) return "T!stat-slots";
         }
         if (x.max_size() < x.size()) return "T!max_size";
         { typename X::allocator_type al = cx.get_allocator(); (void)al; }
@@ -468,7 +580,7 @@ static std::string do_op(std::unique_ptr<X>* c, const Op& o) {
     }
     if (n == "NC") {      // destroy the variable, re-create it empty with comparator state f[1] over arena f[2]
         c[f[0]].reset();
-        c[f[0]].reset(new X(typename X::key_compare(f[1] != 0), make_alloc<X>(f[2])));
+        c[f[0]].reset(new X(make_cmp<typename X::key_compare>(f[1] != 0), make_alloc<X>(f[2])));
         return "-" + O::selfcheck(*c[f[0]]);
     }
     if (n == "SWt") {     // BTree::swap called directly on the underlying trees (std: member swap)
@@ -527,7 +639,7 @@ static std::string run_case(const std::vector<Op>& ops, std::string* dumps) {
         c[2].reset(new C(typename C::key_compare(), make_alloc<C>(2)));
         s[2].reset(new S(typename S::key_compare(), typename S::allocator_type()));
         // comparator state every variable must carry (it travels with copy, assignment and every swap)
-        const bool dir0 = typename C::key_compare().gt;
+        const bool dir0 = cmp_dir(typename C::key_compare(), 0);
         bool dir[3] = {dir0, dir0, dir0};
         auto& A = verif::AllocLedger::get();
         for (size_t k = 0; k < ops.size(); ++k) {
@@ -544,7 +656,7 @@ static std::string run_case(const std::vector<Op>& ops, std::string* dumps) {
                 else if (nm == "SW" || nm == "SWs" || nm == "SWt") std::swap(dir[o.f[0]], dir[o.f[1]]);
                 else if (nm == "CR") dir[o.f[0]] = dir0;
                 else if (nm == "NC") dir[o.f[0]] = (o.f[1] != 0);
-                for (int v = 0; v < 3; ++v) if (c[v]->key_comp().gt != dir[v]) { ri += "!key_comp-state-of-variable-" + std::to_string(v); break; }
+                for (int v = 0; v < 3; ++v) if (cmp_dir(c[v]->key_comp(), 0) != dir[v]) { ri += "!key_comp-state-of-variable-" + std::to_string(v); break; }
             }
             std::string rs;
             if (KD::dup && KD::ismap && o.name == "E1") {
@@ -586,12 +698,14 @@ static std::string run_case(const std::vector<Op>& ops, std::string* dumps) {
 }
 
 typedef std::string (*runner)(const std::vector<Op>&, std::string*);
+static std::string param_mismatch(const std::vector<Op>&, std::string*) { return "NOCONFIG parameters-of-the-real-type-differ-from-the-configuration-name"; }
 std::map<std::string, runner>& registry();
 #ifdef HARNESS_MAIN
 std::map<std::string, runner>& registry() { static std::map<std::string, runner> r; return r; }
 #endif
 // every translation unit registers the configurations of its own CONFIGS_INC file
-#define CFG(kind, gt, L, I, bin) registry()[#kind ":" #L ":" #I ":" #bin ":" #gt] = &run_case<kind##K<gt, L, I, bin>>;
+#define CFG(kind, gt, L, I, bin) \
+    registry()[#kind ":" #L ":" #I ":" #bin ":" #gt] = BtAccess::params_ok<kind##K<gt, L, I, bin>::C>(L, I, bin) ? &run_case<kind##K<gt, L, I, bin>> : &param_mismatch;
 namespace {
 struct Registrar {
     Registrar() {
